@@ -254,6 +254,10 @@ func (list *List[T]) Insert(index int, values ...T) {
 		return
 	}
 
+	if len(values) == 0 {
+		return
+	}
+
 	var beforeElement *element[T]
 	var foundElement *element[T]
 	// determine traversal direction, last to first or first to last
